@@ -410,6 +410,31 @@ theorem centroid_single_channel (exp : R → R) (σ : R) (s H W n : Nat)
     intro a _
     simp [nodeOf]
 
+/-! ## batches (F-C01)
+
+Full statement (false of the code for `n_samples > 1`): every sample of a batch gets the
+max-reduction over *its own* animals. -/
+def multi_batch_independent (T : Transc R) : Prop :=
+  ∀ (σ : R) (s H W n nNodes : Nat) (batch : List (List (List (Option (R × R))))),
+    multiConfmapsBatch T.exp Nat.cast σ s H W n nNodes batch
+      = batch.map (multiConfmaps T.exp Nat.cast σ s H W n nNodes)
+
+/-- **multi_batch_partial**: for a batch of one sample (the only way the datasets call it) the
+coded reduction is the per-sample one. -/
+theorem multi_batch_partial (exp : R → R) (σ : R) (s H W n nNodes : Nat)
+    (animals : List (List (Option (R × R)))) :
+    multiConfmapsBatch exp Nat.cast σ s H W n nNodes [animals]
+      = [multiConfmaps exp Nat.cast σ s H W n nNodes animals] := by
+  simp [multiConfmapsBatch, multiConfmaps]
+
+/-- **multi_batch_counterexample**: 1×1 image, sample 0 has a keypoint at the origin, sample 1 has
+none — the coded reduction puts sample 0's bump (value 1) into sample 1's map, which should be 0. -/
+theorem multi_batch_counterexample (T : Transc R) : ¬ multi_batch_independent T := by
+  intro h
+  have := h 1 1 1 1 1 1 [[[some (0, 0)]], [[none]]]
+  simp [multiConfmapsBatch, multiConfmaps, makeMultiConfmaps, tabulate, gridVec, gridLen, multiCell,
+    nodeOf, cmCell, d2, maxR, T.exp_zero] at this
+
 /-! ## non-vacuity: the hypotheses are met by concrete values over ℝ -/
 
 example : ∃ T : Transc ℝ, T.exp 0 = 1 := ⟨realTransc, realTransc.exp_zero⟩
